@@ -42,7 +42,8 @@ def main(argv):
             if r.returncode != 0:
                 rows.append((sid, meta["property"], "PATCH DOES NOT APPLY: " + (r.stdout + r.stderr).strip()[:200]))
                 continue
-            props = PROPS if all_props else [meta["property"]] + [p for p in meta.get("also_check", [])]
+            neutral = meta.get("kind") == "neutral"
+            props = PROPS if (all_props or neutral) else [meta["property"]] + [p for p in meta.get("also_check", [])]
             hits = []
             for p in props:
                 if p not in PROPS:
@@ -55,11 +56,11 @@ def main(argv):
                     new = [f for f in res.findings if f.key() not in base[p]]
                     if new:
                         hits.append("%s: %s %s -- %s" % (p, new[0].rule, new[0].function, new[0].message[:140]))
-                    elif not all_props:
+                    elif not all_props and not neutral:
                         hits.append("%s: silent" % p)
                 except AnalysisError as e:
                     hits.append("%s: ANALYSIS-ERROR %s" % (p, str(e)[:140]))
-            rows.append((sid, meta["property"], " | ".join(hits) if hits else "silent"))
+            rows.append((sid, meta["property"] or "-", " | ".join(hits) if hits else "silent (all %d checks)" % len(props)))
         finally:
             shutil.rmtree(scratch, ignore_errors=True)
     for sid, p, h in rows:
